@@ -437,22 +437,28 @@ fn sweep_other_generators(rep: &mut Report, tier: &str, seed: u64) {
 
 /// growth of the running time with the size of a construct whose work is linear in its size: t(4n) against
 /// t(n), each the minimum of three in-process runs. Linear work gives a factor of about 4, quadratic work 16;
-/// a violation needs both a factor above 11 and more than 0.4 s at 4n, so that noise on tiny times cannot raise it.
+/// a violation needs both a factor above 11 and more than 0.6 s at 4n, measured twice, so that noise on tiny times cannot raise it.
 fn growth_stream(rep: &mut Report) {
-    let mut st = Stream::new("scale/growth", "oracle", "constructs whose work is linear in n - path data, point lists, siblings, a sum of n terms, a loop of n passes, n text lines, a `^` chain, n variables, one long comment / text / attribute value in real SVG - transformed at n and at 4n (minimum of three runs each): the time may grow by the factor 4 of the work, not by its square (violation: factor above 11 with more than 0.4 s at 4n)");
+    let mut st = Stream::new("scale/growth", "oracle", "constructs whose work is linear in n - path data, point lists, siblings, a sum of n terms, a loop of n passes, n text lines, a `^` chain, n variables, one long comment / text / attribute value in real SVG - transformed at n and at 4n (minimum of three runs each): the time may grow by the factor 4 of the work, not by its square (violation: factor above 11 with more than 0.6 s at 4n, the two sizes timed alternately and a suspicious factor measured twice)");
     let kinds: &[(&str, usize)] = &[("path", 20000), ("points", 30000), ("siblings", 1500), ("expr-sum", 5000), ("loop", 250), ("chain-prev", 1000), ("var-chain", 1000), ("text-lines", 1000), ("bulk-real", 200000)];
-    let time_of = |doc: &[u8]| -> Option<f64> {
-        let text = String::from_utf8_lossy(doc).to_string();
-        let mut best = f64::MAX;
+    let once = |text: &str| -> Option<f64> {
+        let t0 = std::time::Instant::now();
+        let r = crate::util::transform(text, &crate::util::default_cfg());
+        let dt = t0.elapsed().as_secs_f64();
+        if r.is_err() { None } else { Some(dt) }
+    };
+    // the two sizes are timed alternately (so that a busy machine slows both alike), minimum of three rounds;
+    // a suspicious factor is measured a second time before it counts
+    let measure = |small: &[u8], big: &[u8]| -> Option<(f64, f64)> {
+        let (a, b) = (String::from_utf8_lossy(small).to_string(), String::from_utf8_lossy(big).to_string());
+        let (mut t1, mut t4) = (f64::MAX, f64::MAX);
         for _ in 0..3 {
-            let t0 = std::time::Instant::now();
-            let r = crate::util::transform(&text, &crate::util::default_cfg());
-            let dt = t0.elapsed().as_secs_f64();
-            if r.is_err() { return None; }
-            best = best.min(dt);
-            if dt > 30.0 { break; }
+            t1 = t1.min(once(&a)?);
+            let d = once(&b)?;
+            t4 = t4.min(d);
+            if d > 30.0 { break; }
         }
-        Some(best)
+        Some((t1, t4))
     };
     for (k, n) in kinds {
         let mk = |n: usize| -> Vec<u8> {
@@ -464,13 +470,16 @@ fn growth_stream(rep: &mut Report) {
         };
         let (small, big) = (mk(*n), mk(4 * *n));
         st.case(&format!("{k}:{n}"), true, || json!({"kind": k, "n": n}));
-        let (Some(t1), Some(t4)) = (time_of(&small), time_of(&big)) else {
+        let suspicious = |t: (f64, f64)| t.1 / t.0.max(1e-4) > 11.0 && t.1 > 0.6;
+        let mut m = measure(&small, &big);
+        if let Some(t) = m { if suspicious(t) && t.1 < 30.0 { let m2 = measure(&small, &big); if let Some(t2) = m2 { if !suspicious(t2) { m = m2; } } } }
+        let Some((t1, t4)) = m else {
             rep.violation(Violation { kind: "oracle", stream: st.name.clone(), signature: "C01:panic".into(), what: format!("panic while timing {k}"), replay: json!({"input_hex": hex(&small)}), confirmed_on_impl: true });
             continue;
         };
         let factor = t4 / t1.max(1e-4);
         st.tally(&format!("{k}: {:.0} ms -> {:.0} ms", t1 * 1000.0, t4 * 1000.0));
-        if factor > 11.0 && t4 > 0.4 {
+        if factor > 11.0 && t4 > 0.6 {
             rep.violation(Violation { kind: "oracle", stream: st.name.clone(), signature: format!("C01:superlinear:{k}"), what: format!("{k}: {:.3} s at n = {n}, {:.3} s at n = {} - four times the work takes {:.1} times as long", t1, t4, 4 * n, factor), replay: json!({"input_hex": hex(&big), "kind": k, "n": 4 * n, "limit_s": (t1 * 8.0).max(0.4)}), confirmed_on_impl: true });
         } else {
             st.exact += 1;
